@@ -639,6 +639,21 @@ func (e *Enc) specCall(n *ast.CallExpr, env *SpecEnv) Val {
 		e.ctr["q"]++
 		bv := fmt.Sprintf("k!q%d", e.ctr["q"])
 		return boolVal(fmt.Sprintf("(or (= %s 0) (forall ((%s %s)) (=> (select (select %s %s) %s) (not (= (select (select %s %s) %s) 0)))))", m.T, bv, ks, has.Term, m.T, bv, typ.Term, m.T, bv))
+	case "notnil":
+		// notnil(x): non-nil pointer, or interface that is neither nil nor a typed nil pointer
+		v := arg(0)
+		switch v.Sh.K {
+		case KInt:
+			if v.Loc != nil {
+				return boolVal("true")
+			}
+			return boolVal(fmt.Sprintf("(not (= %s 0))", v.T))
+		case KIface:
+			return boolVal(fmt.Sprintf("(and (not (= %s 0)) (=> (isptrtype %s) (not (= %s 0))))", v.Sub[0].T, v.Sub[0].T, v.Sub[1].T))
+		case KSlice:
+			return boolVal(fmt.Sprintf("(not (= %s 0))", v.Sub[0].T))
+		}
+		specFail("notnil of %s", v.Sh.T)
 	case "dynres":
 		// dynres(fn, k): k-th result of the call made through the function-typed parameter fn
 		name := n.Args[0].(*ast.Ident).Name
